@@ -36,3 +36,32 @@ RECIPES['C06'] = [
     ('imex-ex-row', TI, 'ex_terms = dt * sum(a_ex[i-1][j] * f[j] for j in range(i) if a_ex[i-1][j])', 'ex_terms = dt * sum(a_ex[i-1][j] * f[j] for j in range(i - 1) if a_ex[i-1][j])', 'kill'),
     ('imex-final-b', TI, '    im_terms = dt * sum(b_im[j] * g[j] for j in range(num_steps) if b_im[j])\n    y_next', '    im_terms = dt * sum(b_ex[j] * g[j] for j in range(num_steps) if b_im[j])\n    y_next', 'kill'),
 ]
+
+FIL = 'dinosaur/filtering.py'
+RECIPES['C15'] = [
+    ('exp-lost-minus', FIL, 'scaling = jnp.exp((k > c) * (-a * (((k - c) / (1 - c)) ** (2 * p))))', 'scaling = jnp.exp((k > c) * (a * (((k - c) / (1 - c)) ** (2 * p))))', 'kill'),
+    ('exp-odd-power', FIL, '** (2 * p))))', '** p)))', 'kill'),
+    ('exp-no-indicator', FIL, 'scaling = jnp.exp((k > c) * (-a * (((k - c) / (1 - c)) ** (2 * p))))', 'scaling = jnp.exp(-a * (((k - c) / (1 - c)) ** (2 * p)))', 'kill'),
+    ('exp-per-m', FIL, '  _, total_wavenumber = grid.modal_axes\n\n  k = total_wavenumber / total_wavenumber.max()', '  total_wavenumber, _ = grid.modal_axes\n\n  k = total_wavenumber / total_wavenumber.max()', 'kill'),
+    ('exp-square-strength', FIL, 'scaling = jnp.exp((k > c) * (-a * (((k - c) / (1 - c)) ** (2 * p))))', 'scaling = jnp.exp((k > c) * (-a * a * (((k - c) / (1 - c)) ** (2 * p))))', 'kill'),
+    ('exp-equiv-rewrite', FIL, 'scaling = jnp.exp((k > c) * (-a * (((k - c) / (1 - c)) ** (2 * p))))', 'damping = a * ((k - c) / (1 - c)) ** (2 * p)\n  scaling = jnp.exp(-(k > c) * damping)', 'equiv'),
+    ('diff-lost-minus', FIL, 'scaling = jnp.exp(-scale * (-eigenvalues) ** order)', 'scaling = jnp.exp(-scale * eigenvalues ** order)', 'kill'),
+    ('diff-amplify', FIL, 'scaling = jnp.exp(-scale * (-eigenvalues) ** order)', 'scaling = jnp.exp(scale * (-eigenvalues) ** order)', 'kill'),
+    ('diff-offset', FIL, 'scaling = jnp.exp(-scale * (-eigenvalues) ** order)', 'scaling = jnp.exp(-scale * (1 - eigenvalues) ** order)', 'kill'),
+    ('diff-equiv', FIL, 'scaling = jnp.exp(-scale * (-eigenvalues) ** order)', 'decay = scale * jnp.abs(eigenvalues) ** order\n  scaling = jnp.exp(-decay)', 'equiv'),
+    ('gate-dropped', FIL, 'rescale = lambda x: scaling * x if _preserves_shape(x, scaling) else x', 'rescale = lambda x: scaling * x', 'kill'),
+    ('gate-inverted', FIL, 'rescale = lambda x: scaling * x if _preserves_shape(x, scaling) else x', 'rescale = lambda x: x if _preserves_shape(x, scaling) else scaling * x', 'kill'),
+    ('gate-weak', FIL, 'return target_shape == np.broadcast_shapes(target_shape, scaling.shape)', 'return len(target_shape) >= len(scaling.shape)', 'kill'),
+    ('step-dt-squared', TI, 'filter_fn = filtering.exponential_filter(grid, dt / tau, order, cutoff)\n  return runge_kutta_step_filter(filter_fn)', 'filter_fn = filtering.exponential_filter(grid, (dt / tau) ** 2, order, cutoff)\n  return runge_kutta_step_filter(filter_fn)', 'kill'),
+    ('step-swapped-args', TI, 'filter_fn = filtering.exponential_filter(grid, dt / tau, order, cutoff)\n  return leapfrog_step_filter(filter_fn)', 'filter_fn = filtering.exponential_filter(grid, dt / tau, cutoff, order)\n  return leapfrog_step_filter(filter_fn)', 'kill'),
+    ('step-wrong-adapter', TI, 'filter_fn = filtering.exponential_filter(grid, dt / tau, order, cutoff)\n  return leapfrog_step_filter(filter_fn)', 'filter_fn = filtering.exponential_filter(grid, dt / tau, order, cutoff)\n  return runge_kutta_step_filter(filter_fn)', 'kill'),
+    ('diffstep-end-index', TI, 'top_eigenvalue = eigenvalues[grid.total_wavenumbers - 1]', 'top_eigenvalue = eigenvalues[-1]', 'kill'),
+    ('diffstep-no-order', TI, 'scale = dt / (tau * abs(top_eigenvalue) ** order)', 'scale = dt / (tau * abs(top_eigenvalue))', 'kill'),
+    ('diffstep-order-not-forwarded', TI, 'filter_fn = filtering.horizontal_diffusion_filter(grid, scale, order)', 'filter_fn = filtering.horizontal_diffusion_filter(grid, scale)', 'kill'),
+    ('ra-weight', TI, 'lambda p, c, f: (1 - 2 * r) * c + r * (p + f),', 'lambda p, c, f: (1 - r) * c + r * (p + f),', 'kill'),
+    ('ra-asym', TI, 'lambda p, c, f: (1 - 2 * r) * c + r * (p + f),', 'lambda p, c, f: (1 - 2 * r) * c + 2 * r * p,', 'kill'),
+    ('ra-filters-future', TI, '    return (filtered_current, future)\n', '    return (filtered_current, filtered_current)\n', 'kill'),
+    ('ra-equiv', TI, 'lambda p, c, f: (1 - 2 * r) * c + r * (p + f),', 'lambda p, c, f: c + r * (p - 2 * c + f),', 'equiv'),
+    ('rk-adapter-filters-u', TI, '    del u  # unused\n    return state_filter(u_next)', '    return state_filter(u)', 'kill'),
+    ('lf-adapter-filters-both', TI, '    future = state_filter(future)\n    return (current, future)', '    future = state_filter(future)\n    return (state_filter(current), future)', 'kill'),
+]
